@@ -1064,7 +1064,32 @@ fn family_bindings(run: &Run, cnt: &Cnt, thorough: bool) -> u64 {
           m.inputs.push(dmn::Input { name: names[k].into(), type_ref: "string".into() });
         }
         let body = format!("\"F<\" + {} + \">\"", (0..n).map(|k| names[k].to_string()).collect::<Vec<_>>().join(" + \",\" + "));
-        m.bkms.push(dmn::Bkm { name: "F".into(), type_ref: None, params: (0..n).map(|k| (names[k].to_string(), Some("string".to_string()))).collect(), knowledge: vec![], logic: Expr::lit(&body) });
+        // the knowledge model's body alternates between a literal expression and a boxed context with a result entry
+        let body_as_context = (models % 2) == 0;
+        let logic = if body_as_context {
+          Expr::Context(vec![(Some("d".to_string()), None, Expr::lit(&body)), (None, None, Expr::lit("d"))])
+        } else {
+          Expr::lit(&body)
+        };
+        m.bkms.push(dmn::Bkm { name: "F".into(), type_ref: None, params: (0..n).map(|k| (names[k].to_string(), Some("string".to_string()))).collect(), knowledge: vec![], logic });
+        // the inputs read after an invocation whose parameters are named like them: by literal call and inside a boxed context
+        let args = (0..n).map(|k| names[assign[k]].to_string()).collect::<Vec<_>>().join(", ");
+        let reads = (0..n).map(|k| names[k].to_string()).collect::<Vec<_>>().join(" + \",\" + ");
+        m.decisions.push(dmn::Decision {
+          name: "After".into(),
+          type_ref: Some("string".into()),
+          requires: dmn::Requires { inputs: (0..n).map(|k| names[k].to_string()).collect(), decisions: vec![], knowledge: vec!["F".into()] },
+          logic: Some(Expr::lit(&format!("F({}) + \"|\" + {}", args, reads))),
+        });
+        m.decisions.push(dmn::Decision {
+          name: "AfterBoxed".into(),
+          type_ref: Some("string".into()),
+          requires: dmn::Requires { inputs: (0..n).map(|k| names[k].to_string()).collect(), decisions: vec![], knowledge: vec!["F".into()] },
+          logic: Some(Expr::Context(vec![
+            (Some("t".to_string()), None, Expr::Invocation("F".into(), (0..n).map(|k| (names[k].to_string(), Expr::lit(names[assign[k]]))).collect())),
+            (None, None, Expr::lit(&format!("t + \"|\" + {}", reads))),
+          ])),
+        });
         let bindings: Vec<(String, Expr)> = order.iter().map(|k| (names[*k].to_string(), Expr::lit(names[assign[*k]]))).collect();
         m.decisions.push(dmn::Decision {
           name: "Boxed".into(),
@@ -1108,6 +1133,21 @@ fn family_bindings(run: &Run, cnt: &Cnt, thorough: bool) -> u64 {
             &format!("boxed invocation of F with bindings {:?} (in this order) and inputs {} gives {} but every binding formula evaluated in the invoking scope gives {}", order.iter().map(|k| format!("{} := {}", names[*k], names[assign[*k]])).collect::<Vec<_>>(), ctx_text(&pairs), got, want),
             json!({"engine":"dmn","xml":xml,"invocable":"Boxed","ctx":pairs.iter().map(|(k,v)| json!([k,v])).collect::<Vec<_>>(),"expected":want}),
           );
+        }
+        // the inputs are still the inputs after the invocation
+        let want_after = format!("\"F<{}>|{}\"", (0..n).map(|k| values[assign[k]].to_string()).collect::<Vec<_>>().join(","), (0..n).map(|k| values[k].to_string()).collect::<Vec<_>>().join(","));
+        for inv in ["After", "AfterBoxed"] {
+          let got = show_value(&me.evaluate_invocable(inv, &ctx));
+          cnt.evals.fetch_add(1, Ordering::Relaxed);
+          cnt.compared.fetch_add(1, Ordering::Relaxed);
+          cnt.nontrivial.fetch_add(1, Ordering::Relaxed);
+          if got != want_after {
+            run.violation(
+              &format!("bindings:names-after-invocation:{}:{}", if body_as_context { "knowledge-model-as-context" } else { "knowledge-model-as-literal" }, if inv == "After" { "literal-call" } else { "boxed-invocation" }),
+              &format!("decision `{}` (invocation of F({}) followed by reading the inputs) with {} gives {} but {} is prescribed", inv, args, ctx_text(&pairs), got, want_after),
+              json!({"engine":"dmn","xml":xml,"invocable":inv,"ctx":pairs.iter().map(|(k,v)| json!([k,v])).collect::<Vec<_>>(),"expected":want_after}),
+            );
+          }
         }
         // boxed context: sequential in document order
         let mut env: Vec<String> = (0..n).map(|k| values[k].to_string()).collect();
